@@ -1183,7 +1183,9 @@ fn gen_late(r: &mut Rng, cap: usize) -> Skel {
     s.rules.push(rule(vec![pat(v("X"), "d", v("Y"))], vec![pat(v("X"), "f", v("Y"))]));
     // long proof: chain c0 -> c1 -> ... -> ck -> f
     let kk = r.range(1, 4);
-    add(&mut s, lf("a", "c0", "b"), true, &mut unc_left);
+    // one time in three the long proof is certain: the stored tag then improves to "true"
+    let long_uncertain = !r.chance(1, 3);
+    add(&mut s, lf("a", "c0", "b"), long_uncertain, &mut unc_left);
     for i in 0..kk {
         let mut prem = vec![pat(v("X"), &format!("c{}", i), v("Y"))];
         if r.chance(1, 3) {
